@@ -3,7 +3,7 @@
 tier=${1:-quick}
 cd "$(dirname "$(readlink -f "$0")")"
 for p in C01 C02 C03 C04 C05 C06 C08 C09 C10 C11 C12 C13 C15 C16 C17 C18 C20; do
-  ./check $p $tier > /dev/shm/runall-$p.log 2>&1; rc=$?
-  echo "$p exit=$rc $(grep -c '^VIOLATION' /dev/shm/runall-$p.log) violations; $(grep '^wsimctl: C' /dev/shm/runall-$p.log | tail -1)"
-  grep -A1 '^VIOLATION\|KNOWN-FINDING\|infrastructure' /dev/shm/runall-$p.log | cut -c1-300 | head -6
+  ./check $p $tier > /dev/shm/runall-$$-$p.log 2>&1; rc=$?
+  echo "$p exit=$rc $(grep -c '^VIOLATION' /dev/shm/runall-$$-$p.log) violations; $(grep '^wsimctl: C' /dev/shm/runall-$$-$p.log | tail -1)"
+  grep -A1 '^VIOLATION\|KNOWN-FINDING\|infrastructure' /dev/shm/runall-$$-$p.log | cut -c1-300 | head -6
 done
